@@ -199,6 +199,57 @@ def replay_main(prop, path, repo):
     return 1
 
 
+def _fresh_replay(prop, path, repo):
+    """Replay a file in a fresh interpreter; (cls, digest, detail) or None."""
+    cmd = [sys.executable, os.path.join(VERIF_DIR, "vcheck.py"), prop, "--replay", path, "--repo", repo]
+    try:
+        p = subprocess.run(cmd, capture_output=True, text=True, timeout=300)
+    except subprocess.TimeoutExpired:
+        return None
+    cls = digest = None
+    detail = ""
+    for line in p.stdout.splitlines():
+        if line.startswith("REPLAY-RESULT cls="):
+            parts = line.split()
+            cls = parts[1][4:]
+            digest = parts[2][7:]
+        elif line.startswith("  detail: "):
+            detail = line[10:]
+    if cls is None:
+        return None
+    return cls, digest, detail
+
+
+def _confirm_in_fresh_processes(prop, repo, verif_seed, v, case, path):
+    """For code under test that keeps state from one run to the next inside a process (so that
+    a failure seen in a worker does not repeat in-process): decide the case in fresh
+    interpreters.  Two fresh replays must agree exactly; the file then records what they show."""
+    rep = {
+        "property": prop,
+        "cls": "?",
+        "detail": "",
+        "seed": v["seed"],
+        "verif_seed": verif_seed,
+        "index": v["index"],
+        "digest": "",
+        "minimise_tries": 0,
+        "case": case,
+        "note": "not minimised: the violation depends on state the code under test keeps between runs of one process; decided by fresh-interpreter replays",
+    }
+    with open(path, "w") as f:
+        json.dump(rep, f, indent=1, sort_keys=True, default=str)
+    a = _fresh_replay(prop, path, repo)
+    if a is None:
+        return None
+    rep["cls"], rep["digest"], rep["detail"] = a
+    with open(path, "w") as f:
+        json.dump(rep, f, indent=1, sort_keys=True, default=str)
+    b = _fresh_replay(prop, path, repo)
+    if b is None or b[:2] != a[:2]:
+        return None
+    return a
+
+
 def check_main(prop, tier, verif_seed, repo, workers, runs=None, budget=None, start=0):
     t_start = time.time()
     mod = _setup(prop)
@@ -272,10 +323,37 @@ def check_main(prop, tier, verif_seed, repo, workers, runs=None, budget=None, st
     reported = []
     n_viol = 0
     os.makedirs(os.path.join(OUT_DIR, "replays"), exist_ok=True)
+    fresh_reported = set()
+
+    def fresh_fallback(cls, v, case, why):
+        """returns True when the case was decided (and reported) by fresh-interpreter replays"""
+        nonlocal n_viol
+        path = os.path.join(OUT_DIR, "replays", f"{prop}-{v['seed']}.json")
+        got = _confirm_in_fresh_processes(prop, repo, verif_seed, v, case, path)
+        if got is None:
+            return False
+        if got[0] in fresh_reported:
+            return True
+        fresh_reported.add(got[0])
+        fake = (got[0], got[2])
+        for k in known:
+            if k.get("status") == "known" and mod.known_match(k, case, fake):
+                print(f"KNOWN-FINDING: property={prop} {k['id']}: {k['what']}")
+                reported.append({"cls": got[0], "known": k["id"], "replay": path})
+                return True
+        n_viol += 1
+        print(f"VIOLATION property={prop} replay={path}")
+        print(f"  class={got[0]} seed={v['seed']} index={v['index']} detail={got[2]}")
+        print(f"  note: {why}; decided by two agreeing fresh-interpreter replays, not minimised")
+        reported.append({"cls": got[0], "known": None, "replay": path, "detail": got[2], "note": why})
+        return True
+
     for cls, v in list(by_cls.items())[:6]:
         case = explicit_case(mod, v)
         r = mod.run_case(copy.deepcopy(case))
         if r.violation is None or r.violation[0] != cls:
+            if fresh_fallback(cls, v, case, f"seen as {cls} in a worker but not when re-run in the same process (the code under test keeps state between runs)"):
+                continue
             harness_errors.append(
                 f"violation {cls} of seed {v['seed']} did not reproduce from its explicit trace (got {r.violation})"
             )
@@ -286,6 +364,8 @@ def check_main(prop, tier, verif_seed, repo, workers, runs=None, budget=None, st
             small = case
             r = mod.run_case(copy.deepcopy(small), keep_log=True)
         if r.violation is None or r.violation[0] != cls:
+            if fresh_fallback(cls, v, case, f"{cls} reproduced once but not again in the same process"):
+                continue
             harness_errors.append(f"violation {cls} of seed {v['seed']} reproduced once but not again in the same process (state leaks between runs?)")
             continue
         path = os.path.join(OUT_DIR, "replays", f"{prop}-{v['seed']}.json")
@@ -311,6 +391,8 @@ def check_main(prop, tier, verif_seed, repo, workers, runs=None, budget=None, st
         except subprocess.TimeoutExpired:
             ok = False
         if not ok:
+            if fresh_fallback(cls, v, case, f"{cls} in this process, something else in a fresh interpreter"):
+                continue
             harness_errors.append(f"nondeterministic-replay {cls} {path}")
             continue
         match = None
